@@ -103,6 +103,8 @@ def valMissing (vs : List (Option PyVal)) (k : Nat) : Bool :=
   | some (some _) => false
   | _ => true
 
+/-- (lemma for the second sentence) the loop of `_validate` fails as soon as the `k`-th argument of the table is required,
+    has no generator and no value -/
 theorem hasFail_argsItems_at (dp : Bool) : ∀ (as : List ArgDecl) (vs : List (Option PyVal)) (k : Nat) (a : ArgDecl),
     as[k]? = some a → a.required = true → a.generator = false → valMissing vs k = true →
     hasFail (argsItems dp as vs) = true
